@@ -17,6 +17,14 @@ from .astq import parents, calls_named, definitions, attr_tail, const_int
 RT = 'runtime::Runtime.'
 
 
+class _Subst2(ast.NodeTransformer):
+    def __init__(self, env):
+        self.env = env
+
+    def visit_Name(self, n):
+        return copy.deepcopy(self.env[n.id]) if isinstance(n.ctx, ast.Load) and n.id in self.env else n
+
+
 class _Ren(ast.NodeTransformer):
     def __init__(self, m):
         self.m = m
@@ -43,48 +51,133 @@ def _schedule(fn):
         if isinstance(s, ast.Assign) and len(s.targets) == 1 and isinstance(s.targets[0], ast.Name) and isinstance(s.value, ast.Call) \
                 and attr_tail(s.value.func) == 'bit_length':
             roles[s.targets[0].id] = 'T'
-    whiles = [w for w in iter_nodes(node) if isinstance(w, ast.While)]
-    if len(whiles) != 2:
-        return None, f'{len(whiles)} while loops (expected the outer loop over p and the inner loop over d)'
-    outer, inner = whiles
+    # the inner loop (over d) is the innermost loop around the index set of a round; the outer loop (over p) is the loop around it
+    pm0 = parents(node)
+    idx_sites = [x for x in iter_nodes(node) if (isinstance(x, ast.For) and isinstance(x.iter, ast.Call) and attr_tail(x.iter.func) == 'range'
+                                                 and any(isinstance(c, ast.Call) and attr_tail(c.func) == 'if_swap' for c in ast.walk(x)))
+                 or (isinstance(x, (ast.GeneratorExp, ast.ListComp)) and len(x.generators) == 1 and x.generators[0].ifs
+                     and isinstance(x.generators[0].iter, ast.Call) and attr_tail(x.generators[0].iter.func) == 'range')]
+    if len(idx_sites) != 1:
+        return None, f'{len(idx_sites)} candidate index sets of a round found (expected one)'
+    loops = [a for a in astq.ancestors(idx_sites[0], pm0) if isinstance(a, (ast.While, ast.For)) and a is not idx_sites[0]]
+    if len(loops) < 2 or not isinstance(loops[0], ast.While):
+        return None, 'the index set of a round is not inside the inner loop over d nested in the outer loop over p'
+    inner, outer = loops[0], loops[1]
 
-    def loop_var(w):
-        """`while v:` -> v;  `while True: ...; if not v: break` -> v  (the same loop when v is nonzero on entry, which the enclosing
-        `while p:` / the initialisation d = p guarantees for this schedule)"""
+    def loop_exit_var(w):
+        """(v, break statement or None): the loop runs while v is nonzero -- `while v:`, or `while True:` left by `if not v: break`"""
         if isinstance(w.test, ast.Name):
-            return w.test.id
-        if isinstance(w.test, ast.Constant) and w.test.value is True and w.body and isinstance(w.body[-1], ast.If) and not w.body[-1].orelse \
-                and len(w.body[-1].body) == 1 and isinstance(w.body[-1].body[0], ast.Break):
-            t = w.body[-1].test
-            if isinstance(t, ast.UnaryOp) and isinstance(t.op, ast.Not) and isinstance(t.operand, ast.Name):
-                return t.operand.id
-            if isinstance(t, ast.Compare) and len(t.ops) == 1 and isinstance(t.ops[0], ast.Eq) and isinstance(t.left, ast.Name) and const_int(t.comparators[0]) == 0:
-                return t.left.id
-        return None
-    pv, dv = loop_var(outer), loop_var(inner)
-    if pv is None or dv is None:
-        return None, 'loop tests are not the schedule variables p and d'
+            return w.test.id, None
+        if isinstance(w.test, ast.Constant) and w.test.value is True:
+            brs = [s_ for s_ in w.body if isinstance(s_, ast.If) and not s_.orelse and len(s_.body) == 1 and isinstance(s_.body[0], ast.Break)]
+            if len(brs) == 1:
+                t = brs[0].test
+                if isinstance(t, ast.UnaryOp) and isinstance(t.op, ast.Not) and isinstance(t.operand, ast.Name):
+                    return t.operand.id, brs[0]
+                if isinstance(t, ast.Compare) and len(t.ops) == 1 and isinstance(t.ops[0], ast.Eq) and isinstance(t.left, ast.Name) and const_int(t.comparators[0]) == 0:
+                    return t.left.id, brs[0]
+        return None, None
+    dv, dbreak = loop_exit_var(inner)
+    if dv is None:
+        return None, 'the inner loop is not controlled by the schedule variable d'
+    # the outer loop: `p = 2^(T-1); while p: ...; p >>= 1`  or  `for s in range(T-1, -1, -1): p = 1 << s`
+    p_first = None
+    p_expr_txt = None            # in the for-form: the expression p stands for (1 << s), folded back to p wherever it was expanded
+    if isinstance(outer, ast.While):
+        pv, _b = loop_exit_var(outer)
+        if pv is None:
+            return None, 'the outer loop is not controlled by the schedule variable p'
+        inits = [s_ for s_ in iter_nodes(node) if isinstance(s_, ast.Assign) and len(s_.targets) == 1 and isinstance(s_.targets[0], ast.Name) and s_.targets[0].id == pv
+                 and astq.position(s_) < astq.position(outer)]
+        step = [s_ for s_ in outer.body if isinstance(s_, ast.AugAssign) and isinstance(s_.target, ast.Name) and s_.target.id == pv]
+        if len(inits) != 1 or len(step) != 1 or not isinstance(step[0].op, ast.RShift) or const_int(step[0].value) != 1:
+            return None, 'the outer loop does not halve p from its initial value'
+        p_first = (inits[0].value, inits[0])
+    else:
+        rng = outer.iter
+        first = outer.body[0] if outer.body else None
+        top_s = None                  # the first (largest) exponent s
+        if isinstance(rng, ast.Call) and attr_tail(rng.func) == 'range' and len(rng.args) == 3 and const_int(rng.args[1]) == -1 and const_int(rng.args[2]) == -1:
+            top_s = rng.args[0]
+        elif isinstance(rng, ast.Call) and isinstance(rng.func, ast.Name) and rng.func.id == 'reversed' and len(rng.args) == 1 and isinstance(rng.args[0], ast.Call) \
+                and attr_tail(rng.args[0].func) == 'range' and len(rng.args[0].args) == 1:
+            top_s = ast.BinOp(left=rng.args[0].args[0], op=ast.Sub(), right=ast.Constant(value=1))
+        if not (top_s is not None
+                and isinstance(outer.target, ast.Name) and isinstance(first, ast.Assign) and isinstance(first.targets[0], ast.Name)
+                and isinstance(first.value, ast.BinOp) and isinstance(first.value.op, ast.LShift) and const_int(first.value.left) == 1
+                and norm(first.value.right) == outer.target.id):
+            return None, 'the outer loop does not enumerate p = 2^s for s = T-1 .. 0'
+        pv = first.targets[0].id
+        p_expr_txt = norm(first.value)
+        p_first = (ast.BinOp(left=ast.Constant(value=1), op=ast.LShift(), right=top_s), outer)
     roles[pv] = 'P'
     roles[dv] = 'D'
-    tups = [s for s in iter_nodes(node) if isinstance(s, ast.Assign) and isinstance(s.targets[0], ast.Tuple) and len(s.targets[0].elts) == 3
-            and all(isinstance(x, ast.Name) for x in s.targets[0].elts) and s.targets[0].elts[0].id == dv]
-    if len(tups) != 2:
-        return None, 'the two updates of (d, q, r) were not found'
-    roles[tups[0].targets[0].elts[1].id] = 'Q'
-    roles[tups[0].targets[0].elts[2].id] = 'R'
+    # (Q and R are told apart below, from the updates themselves: the next d is computed from q; r is the third variable)
+    def compose(stmts, env, stop_at=None):
+        """sequential composition of assignments to the schedule variables (tuple assignments are simultaneous)"""
+        def ev(e):
+            return _Subst2(env).visit(copy.deepcopy(e))
+        for s_ in stmts:
+            if s_ is stop_at:
+                break
+            if isinstance(s_, ast.Assign) and len(s_.targets) == 1:
+                t_ = s_.targets[0]
+                if isinstance(t_, ast.Tuple) and isinstance(s_.value, ast.Tuple) and len(t_.elts) == len(s_.value.elts) and all(isinstance(x, ast.Name) for x in t_.elts):
+                    vals = [ev(v_) for v_ in s_.value.elts]
+                    for x, v_ in zip(t_.elts, vals):
+                        env[x.id] = v_
+                elif isinstance(t_, ast.Name) and t_.id != pv:
+                    env[t_.id] = ev(s_.value)
+            elif isinstance(s_, ast.AugAssign) and isinstance(s_.target, ast.Name):
+                env[s_.target.id] = ast.BinOp(left=env.get(s_.target.id, ast.Name(id=s_.target.id, ctx=ast.Load())), op=s_.op, right=ev(s_.value))
+        return env
+    # entry of the inner loop: the assignments of the outer body before it
+    k_in = next(i_ for i_, s_ in enumerate(outer.body) if s_ is inner)
+    entry = compose(outer.body[:k_in], {})
+    # one step of the inner loop: the assignments of its body after the round (in a `while True` form: around the break)
+    k_idx = next((i_ for i_, s_ in enumerate(inner.body) if s_ is idx_sites[0] or any(x is idx_sites[0] for x in ast.walk(s_))), -1)
+    after = [s_ for s_ in inner.body[k_idx + 1:] if not (isinstance(s_, ast.If) and s_ is dbreak)]
+    # statements between the round and the update that only serve the round (reads, exchanges) assign no schedule variable
+    stepenv = compose(after, {})
+    qv = rv = None
+    svars = (set(stepenv) & set(entry)) - {pv}
+    if dv in stepenv and dv in svars and len(svars) == 3:
+        others = ({x.id for x in ast.walk(stepenv[dv]) if isinstance(x, ast.Name)} - {pv, dv}) & svars
+        if len(others) == 1:
+            qv = others.pop()
+            rv = (svars - {dv, qv}).pop()
+    if qv is None:
+        return None, 'the updates of (d, q, r) were not found'
+    roles[qv] = 'Q'
+    roles[rv] = 'R'
+
+    class _T:            # (the two "updates" in the form the rest of the function expects: tuples of expressions with their sites)
+        def __init__(self, vals, site):
+            self.value, self.site = ast.Tuple(elts=vals, ctx=ast.Load()), site
+    tups = [_T([entry[dv], entry[qv], entry[rv]], inner), _T([stepenv[dv], stepenv[qv], stepenv[rv]], inner.body[-1])]
     from . import sem, cond
     from .linform import Lin, to_lin
     from .rules_ss import _xp_arith
     pm = parents(node)
     roles = {k: v for k, v in roles.items() if v != 'T'}          # temporaries (t, q0, ..) are expanded, not named
 
+    class _FoldP(ast.NodeTransformer):
+        def visit_BinOp(self, n):
+            if p_expr_txt is not None and norm(n) == p_expr_txt:
+                return ast.Name(id='P', ctx=ast.Load())
+            return self.generic_visit(n)
+
     def canon(e):
         """canonical text: linear sub-expressions in normal form, everything else rebuilt around them"""
+        e = _FoldP().visit(copy.deepcopy(e))
         l = to_lin(e, opaque=False)
         if l is not None:
             return repr(l)
         if isinstance(e, ast.BinOp):
-            return f'({canon(e.left)} {type(e.op).__name__} {canon(e.right)})'
+            a_, b_ = canon(e.left), canon(e.right)
+            if isinstance(e.op, (ast.BitAnd, ast.BitOr, ast.BitXor)) and b_ < a_:
+                a_, b_ = b_, a_               # commutative on the integers of the schedule
+            return f'({a_} {type(e.op).__name__} {b_})'
         if isinstance(e, ast.Compare) and len(e.ops) == 1:
             a, b = canon(e.left), canon(e.comparators[0])
             if isinstance(e.ops[0], (ast.Eq, ast.NotEq)) and b < a:
@@ -115,15 +208,9 @@ def _schedule(fn):
             return x
         return canon(_Ren(roles).visit(X().visit(copy.deepcopy(e))))
     out = {}
-    inits = [s for s in iter_nodes(node) if isinstance(s, ast.Assign) and len(s.targets) == 1 and isinstance(s.targets[0], ast.Name) and s.targets[0].id == pv
-             and astq.position(s) < astq.position(outer)]
-    if len(inits) != 1:
-        return None, 'the initialisation of p before the outer loop was not found'
-    out['init P'] = val(inits[0].value, inits[0])
-    out['enter inner'] = val(tups[0].value, tups[0])
-    out['step inner'] = val(tups[1].value, tups[1])
-    step = [s for s in outer.body if isinstance(s, ast.AugAssign) and isinstance(s.target, ast.Name) and s.target.id == pv]
-    out['step outer'] = (type(step[0].op).__name__ + ' ' + val(step[0].value, step[0])) if step else '?'
+    out['P'] = 'from ' + val(p_first[0], p_first[1]) + ' halved down to 1'
+    out['enter inner'] = val(tups[0].value, tups[0].site)
+    out['step inner'] = val(tups[1].value, tups[1].site)
     # the index set {I} of a round, I = the lower position of a comparator: its range and its filter, in terms of I itself --
     # `for i in range(n - d): if i & p == r`, `for j in range(d, n): i = j - d; if i & p != r: continue`, (i for i in range(n - d) if ..)
     idx = None
